@@ -43,7 +43,7 @@ async def check_case(case, rec, ctx):
             return
         files, removed_dirs = C.deleted_paths(before, after)
         state["candidates"] += len(files)
-        problems = C.stepup_should_have_cleaned(stage.result.tables, ledger, dirs, after)
+        problems = C.stepup_should_have_cleaned(stage.result.tables, ledger, dirs, after, before)
         if problems:
             kind_, path = problems[0]
             raise Violation(
